@@ -168,6 +168,80 @@ def check_event_callbacks(ctx, fb, rule, which=('CallCallback', 'DropCallback', 
     return n
 
 
+def check_mutex_event(ctx, fb, re_, cfg):
+    """R-EVENT (shared with C04): the MutexEvent a blocked waiter owns on its stack — _is_ready only under _m, Set
+    notifies while still holding _m (its last access to the event is the unlock), Wait re-tests after every wake-up"""
+    # ---- MutexEvent
+    ME = 'yaclib::detail::MutexEvent'
+    for f in fb.fn.values():
+        if f.clsq != ME or f.cfg is None:
+            continue
+        if f.n == 'Set':
+            key = 'R-EVENT MutexEvent::Set'
+            w = lib_exec.ExecWalker(fb, ME, {ME + '::_is_ready'})
+            res = w.run(f)
+            ctx.instance(re_, key + ' [%s]' % cfg, None)
+            for st, _ in res:
+                acc = [e for e in st.events if e[0] == 'access']
+                if not acc or not all(e[2] for e in acc):
+                    ctx.report(re_, key, f.where, '_is_ready is written without holding _m (the waiter reads it '
+                               'under _m: lost wake-up / data race)')
+                    break
+            notes = [n for n in f.own_nodes() if n.get('cn', '').endswith('::notify_one') or
+                     n.get('cn', '').endswith('::notify_all')]
+            if not notes:
+                ctx.report(re_, key, f.where, 'Set does not notify the waiter')
+            else:
+                # the notify precedes the lock_guard destructor: it is in a block before the implicit dtor element
+                cfgf = f.cfg
+                pos = cfgf.pos_of(notes[0]['i'])
+                dt = [(b, i) for b, i, e in cfgf.elements() if isinstance(e, dict) and e.get('dtor') == 'auto']
+                if not dt or not cfgf.dominates(pos, dt[0]):
+                    ctx.report(re_, key, f.loc(notes[0]), 'the waiter is notified after _m was released: the '
+                               'condition variable lives on the waiter\'s stack and may already be destroyed')
+        elif f.n == 'Wait' and len(f.params) == 1:
+            key = 'R-EVENT MutexEvent::Wait(token)'
+            ctx.instance(re_, key + ' [%s]' % cfg, None)
+            cfgf = f.cfg
+            waits = [n for n in f.own_nodes() if n.get('cn', '').endswith('condition_variable::wait')]
+            if not waits:
+                ctx.broken('MutexEvent::Wait: cv wait not found')
+            for wn in waits:
+                pos = cfgf.pos_of(wn['i'])
+                if len(wn.get('args', [])) == 2:
+                    # predicate form cv.wait(lock, pred): the library loop re-tests pred after every wake-up
+                    reads = False
+                    for d in f.descendants(wn['args'][1]):
+                        m = f.nodes[d]
+                        for key2 in [m.get('lam')] + list(m.get('lams', [])) if m['k'] == 'LambdaExpr' else []:
+                            g = fb.fn.get(key2)
+                            if g is not None and any(x['k'] == 'MemberExpr' and x.get('mn') == '_is_ready'
+                                                     for x in g.own_nodes()):
+                                reads = True
+                    if not reads:
+                        ctx.report(re_, key, f.loc(wn), 'the predicate of the wait does not read _is_ready')
+                    continue
+
+                def is_test(b, i, e):
+                    return False
+                # every path from the wait to the exit passes a branch whose condition reads _is_ready
+                def blocker(b, i, e):
+                    return False
+                reached = cfgf.reaches_exit_without(pos, lambda b, i, e: isinstance(e, int) and
+                                                    f.nodes[e]['k'] == 'MemberExpr' and
+                                                    f.nodes[e].get('mn') == '_is_ready')
+                if reached:
+                    ctx.report(re_, key, f.loc(wn), 'Wait returns after a wake-up without re-testing _is_ready: a '
+                               'spurious wake-up makes Wait() return before the futures are ready')
+        elif f.n == 'Wait' and len(f.params) == 2:
+            key = 'R-EVENT MutexEvent::Wait(token, timeout)'
+            ctx.instance(re_, key + ' :: ' + f.full[:100], None)
+            calls = [n for n in f.own_nodes() if n.get('cn', '').split('::')[-1] in ('wait_for', 'wait_until')]
+            if not calls or len(calls[0].get('args', [])) != 3:
+                ctx.report(re_, key, f.where, 'the timed wait must use the predicate form (re-test _is_ready after '
+                           'every wake-up and at the deadline)')
+
+
 def check_wait_return(ctx, fb, rr):
     """R-WAITRETURN on every WaitRange instantiation (shared with C04: a wait that returns without last-one evidence
     obtained through the counter's acquiring RMW neither synchronises with the producers nor keeps the stack event alive
@@ -298,75 +372,7 @@ def run(ctx):
             if not any(f.nodes[d].get('cn', '').endswith('compare_exchange_strong') for r in rets
                        for d in f.descendants(r['ch'][0])):
                 ctx.report(rw, key, f.where, 'Reset must report whether its CAS withdrew the registration')
-        # ---- MutexEvent
-        ME = 'yaclib::detail::MutexEvent'
-        for f in fb.fn.values():
-            if f.clsq != ME or f.cfg is None:
-                continue
-            if f.n == 'Set':
-                key = 'R-EVENT MutexEvent::Set'
-                w = lib_exec.ExecWalker(fb, ME, {ME + '::_is_ready'})
-                res = w.run(f)
-                ctx.instance(re_, key + ' [%s]' % cfg, None)
-                for st, _ in res:
-                    acc = [e for e in st.events if e[0] == 'access']
-                    if not acc or not all(e[2] for e in acc):
-                        ctx.report(re_, key, f.where, '_is_ready is written without holding _m (the waiter reads it '
-                                   'under _m: lost wake-up / data race)')
-                        break
-                notes = [n for n in f.own_nodes() if n.get('cn', '').endswith('::notify_one') or
-                         n.get('cn', '').endswith('::notify_all')]
-                if not notes:
-                    ctx.report(re_, key, f.where, 'Set does not notify the waiter')
-                else:
-                    # the notify precedes the lock_guard destructor: it is in a block before the implicit dtor element
-                    cfgf = f.cfg
-                    pos = cfgf.pos_of(notes[0]['i'])
-                    dt = [(b, i) for b, i, e in cfgf.elements() if isinstance(e, dict) and e.get('dtor') == 'auto']
-                    if not dt or not cfgf.dominates(pos, dt[0]):
-                        ctx.report(re_, key, f.loc(notes[0]), 'the waiter is notified after _m was released: the '
-                                   'condition variable lives on the waiter\'s stack and may already be destroyed')
-            elif f.n == 'Wait' and len(f.params) == 1:
-                key = 'R-EVENT MutexEvent::Wait(token)'
-                ctx.instance(re_, key + ' [%s]' % cfg, None)
-                cfgf = f.cfg
-                waits = [n for n in f.own_nodes() if n.get('cn', '').endswith('condition_variable::wait')]
-                if not waits:
-                    ctx.broken('MutexEvent::Wait: cv wait not found')
-                for wn in waits:
-                    pos = cfgf.pos_of(wn['i'])
-                    if len(wn.get('args', [])) == 2:
-                        # predicate form cv.wait(lock, pred): the library loop re-tests pred after every wake-up
-                        reads = False
-                        for d in f.descendants(wn['args'][1]):
-                            m = f.nodes[d]
-                            for key2 in [m.get('lam')] + list(m.get('lams', [])) if m['k'] == 'LambdaExpr' else []:
-                                g = fb.fn.get(key2)
-                                if g is not None and any(x['k'] == 'MemberExpr' and x.get('mn') == '_is_ready'
-                                                         for x in g.own_nodes()):
-                                    reads = True
-                        if not reads:
-                            ctx.report(re_, key, f.loc(wn), 'the predicate of the wait does not read _is_ready')
-                        continue
-
-                    def is_test(b, i, e):
-                        return False
-                    # every path from the wait to the exit passes a branch whose condition reads _is_ready
-                    def blocker(b, i, e):
-                        return False
-                    reached = cfgf.reaches_exit_without(pos, lambda b, i, e: isinstance(e, int) and
-                                                        f.nodes[e]['k'] == 'MemberExpr' and
-                                                        f.nodes[e].get('mn') == '_is_ready')
-                    if reached:
-                        ctx.report(re_, key, f.loc(wn), 'Wait returns after a wake-up without re-testing _is_ready: a '
-                                   'spurious wake-up makes Wait() return before the futures are ready')
-            elif f.n == 'Wait' and len(f.params) == 2:
-                key = 'R-EVENT MutexEvent::Wait(token, timeout)'
-                ctx.instance(re_, key + ' :: ' + f.full[:100], None)
-                calls = [n for n in f.own_nodes() if n.get('cn', '').split('::')[-1] in ('wait_for', 'wait_until')]
-                if not calls or len(calls[0].get('args', [])) != 3:
-                    ctx.report(re_, key, f.where, 'the timed wait must use the predicate form (re-test _is_ready after '
-                               'every wake-up and at the deadline)')
+        ctx.guard(lambda: check_mutex_event(ctx, fb, re_, cfg))
         ctx.guard(lambda: lib_core.check_nodiscard(ctx, fb, rn, lambda f: 'wait_impl.hpp' in f.file or 'wait_group.hpp' in f.file))
     # ---- type witnesses
     wit = os.path.join(facts.VERIF, 'witness', 'wait_shared.cpp')
